@@ -79,6 +79,16 @@ func (c16) Gen(rng *simrt.Rand, seed uint64, tier string) *Case {
 		sql = fmt.Sprintf("SELECT m.ver AS ver, count(*) AS c, collect(id) AS ids FROM stream %s meta m ON k = m.k GROUP BY m.ver, CountingWindow(1)", join)
 	}
 	c.X["windowed"] = windowed
+	if !windowed && rng.Bool(0.3) {
+		// a WHERE over a joined column that holds for every row, matched or not ("WHERE may
+		// reference joined columns"): an unmatched LEFT JOIN row must get through it with NULL
+		col := "m.ver"
+		if noAlias {
+			col = "meta.ver"
+		}
+		sql += " WHERE coalesce(" + col + ", 0) >= 0"
+		c.X["where_joined"] = true
+	}
 	c.X["left"], c.X["composite"], c.X["two"] = left, composite, two
 	nkeys := 2 + rng.Intn(3)
 	var keys [][]any
